@@ -56,11 +56,18 @@ type scenario struct {
 	DupAttempt bool     `json:"dup,omitempty"`
 	BusyName   bool     `json:"busyname,omitempty"`
 	Racers     []racer  `json:"racers,omitempty"`
+	// WithKnown (run mode only): registrations into a drained order - the signature of the open known finding KF-C20-1 -
+	// are performed instead of skipped; a recovered sync.WaitGroup panic of Run then counts as that known finding and
+	// ends the case, everything else the scenario shows is judged as usual
+	WithKnown bool `json:"with_known,omitempty"`
 }
 
 func genScenario(t *rapid.T) scenario {
 	var sc scenario
 	sc.StartMode = rapid.SampledFrom([]string{"start", "start", "start", "run", "run", "never"}).Draw(t, "start")
+	if sc.StartMode == "run" {
+		sc.WithKnown = rapid.Bool().Draw(t, "withKnown")
+	}
 	n := rapid.IntRange(1, 8).Draw(t, "workers")
 	for i := 0; i < n; i++ {
 		w := wspec{Name: fmt.Sprintf("w%d", i), Order: rapid.SampledFrom(orderPool).Draw(t, "order")}
@@ -184,7 +191,7 @@ func orderArgs(order int, explicit0 bool) []int {
 }
 
 func TestShutdownOrder(t *testing.T) {
-	stats.Rule(checkOrder, "rapid draws 1..8 workers with orders from {-2,-1,0,0,1,1,3,7} registered before Start or while running, behaviours hold-until-released / return on cancel / finish early / finish early and re-register (possibly another order) / leave on their own during the shutdown; Start, Run in its own goroutine or never started; 1..3 concurrent ShutdownAndWait/Shutdown callers; duplicate and busy-name registrations; 0..2 BackgroundWorker calls racing with the shutdown (free-running or parked by the verif hook between the stopped-check and the lock and released before / during a held group / after the shutdown). The controller walks the order groups from high to low, holding each group until all its workers saw the cancel. Oracle on logical stamps. Distinct by the scenario JSON. Non-trivial = >=3 distinct orders with a tie and a held worker at shutdown, or an early finisher / re-registration before the shutdown")
+	stats.Rule(checkOrder, "rapid draws 1..8 workers with orders from {-2,-1,0,0,1,1,3,7} registered before Start or while running, behaviours hold-until-released / return on cancel / finish early / finish early and re-register (possibly another order) / leave on their own during the shutdown; Start, Run in its own goroutine or never started (in half of the Run scenarios registrations into a drained order - the signature of KF-C20-1 - are performed and only Run's WaitGroup panic itself is set aside, in the other half they are skipped and counted); 1..3 concurrent ShutdownAndWait/Shutdown callers; duplicate and busy-name registrations; 0..2 BackgroundWorker calls racing with the shutdown (free-running or parked by the verif hook between the stopped-check and the lock and released before / during a held group / after the shutdown). The controller walks the order groups from high to low, holding each group until all its workers saw the cancel. Oracle on logical stamps. Distinct by the scenario JSON. Non-trivial = >=3 distinct orders with a tie and a held worker at shutdown, or an early finisher / re-registration before the shutdown")
 	rapid.Check(t, func(rt *rapid.T) {
 		sc := genScenario(rt)
 		runScenario(rt, sc)
@@ -207,7 +214,12 @@ func runScenario(t fataler, sc scenario) {
 				failure = fmt.Sprintf("panic in the controller goroutine (inside a daemon call): %v\n%s", p, debug.Stack())
 			}
 		}()
-		failure = execScenario(sc, labels, &nontrivial, false, new(bool))
+		known := false
+		failure = execScenario(sc, labels, &nontrivial, sc.WithKnown, &known)
+		if known {
+			stats.Known(knownRunWaitGroupReuse)
+			labels["known_run_waitgroup_reuse_observed"] = true
+		}
 	}()
 	if !ctl.WaitChan(done, 3*ctl.HangTimeout) {
 		failure = "hang: scenario controller did not finish\n" + ctl.Dump()
